@@ -41,7 +41,8 @@ def strategy_case(draw):
         case["big"] = True
         d = k
     if form in ("s/y", "ediv_scalar", "x/s"):
-        case["s"] = draw(gen.scalar(["int", "float", "t0d", "t1"]))
+        # x / s also with 0-d tensor scalars of another dtype (int64, float32): they do not promote the float64 TT
+        case["s"] = draw(gen.scalar(["int", "float", "t0d", "t1"] + (["t0d_i64", "t0d_other"] if form == "x/s" else [])))
         if case["s"]["value"] == 0:
             case["s"]["value"] = 2
     if form in ("ediv", "ediv_scalar"):
@@ -81,7 +82,9 @@ def execute(case):
         sv = gen.build_scalar(s, "f64")
         q = lib(lambda: x / sv)
         if ck.require(isinstance(q, T.TT) and [int(n) for n in q.N] == list(N), "shape", "x/s shape"):
-            ck.bound(fro(dense(q.cores) - xd / float(s["value"])), 64 * d * u * fro(dense_abs(xc)) / abs(float(s["value"])), "scalar_division")
+            sval = gen.scalar_exact_value(s, "f64")      # a float32 0-d tensor carries the rounded value
+            ck.label("scalar:" + s["kind"])
+            ck.bound(fro(dense(q.cores) - xd / sval), 64 * d * u * fro(dense_abs(xc)) / abs(sval), "scalar_division")
         ck.nontrivial = any(r > 1 for r in case["Rx"])
         return ck.verdict()
     zc = core.make_cores({"N": N, "R": case["Rz"], "dt": "f64", "mode": "gauss", "seed": case["seed"] + 1})
